@@ -407,6 +407,9 @@ def handle_regex(text, label):
     return {"matches": [[i.line for i in m] for m in matches], "covered": sorted(set(i.line for i in covered))}
 
 
+NOISE = []
+
+
 def main():
     inp = sys.stdin
     outp = sys.stdout
@@ -418,6 +421,12 @@ def main():
         if parts[0] != "@@REQ":
             continue
         kind, rid, n = parts[1], parts[2], int(parts[3])
+        if os.environ.get("VERIF_ALLOC_NOISE"):
+            # C14: perturb the allocation history so that object addresses (and the iteration order of sets of
+            # objects hashed by identity) differ from the baseline run
+            NOISE.append([object() for _ in range(997 * int(os.environ["VERIF_ALLOC_NOISE"]) + 13 * len(NOISE))])
+            if len(NOISE) % 3 == 0:
+                del NOISE[0]
         rest = parts[4:]
         lines = [inp.readline().rstrip("\n") for _ in range(n)]
         text = "\n".join(lines)
